@@ -1,5 +1,6 @@
 import RossModel.Lemmas.Memory
 import RossModel.Lemmas.MemoryTrace
+import RossModel.Lemmas.SourceReceivers
 /-!
 # C19 — Receiver memory is bounded by the packet in flight and freed at boundaries
 
@@ -62,5 +63,35 @@ example :
     (bytePollsSt usartStep LinkSt.init
       ([0x00, 0x0e, 0x03, 0xe0, 0x01, 0x0b, 0x07, 0x08, 0x01, 0x0a, 0x4e, 0x33, 0x42, 0x56, 0xec, 0x3c].map .byte)).map
       (fun x => (x.1, x.2.1, held x.2.2.rx, announced x.2.2.rx)) = [(.nothing, 0, 1, 2)] := by decide
+
+/-- **Source tie (control flow).** C19's frame-level clause about the receivers' bookkeeping **as translated from
+`src/interface/{can,usart,serial}.rs` on every run**: given one well-formed frame, each of the three keeps the invariant
+(frames held ≤ frames announced ≤ 4096), holds no builder right after a delivered packet or a reported reassembly
+error, and does not panic -/
+theorem C19_src_accept_inv (st : RxSt) (f : Frame) (hf : f.WF) (h : RxInv st) :
+    ∀ step ∈ [Src.canAccept, Src.usartAccept, Src.serialAccept],
+    RxInv (step st (.ok f)).1 ∧
+    (∀ p, (step st (.ok f)).2 = some (.packet p) → (step st (.ok f)).1 = none) ∧
+    (∀ e, (step st (.ok f)).2 = some (.builderErr e) → (step st (.ok f)).1 = none) ∧
+    (step st (.ok f)).2 ≠ some .panic := by
+  intro step hstep
+  have hs : step st (.ok f) = rxStep st f := by
+    simp only [List.mem_cons, List.not_mem_nil, or_false] at hstep
+    rcases hstep with rfl | rfl | rfl
+    · exact Ross.src_canAccept_eq st (.ok f)
+    · exact Ross.src_usartAccept_eq st (.ok f)
+    · exact Ross.src_serialAccept_eq st (.ok f)
+  rw [hs]
+  exact Ross.rxStep_inv st f hf h
+
+/-- an undecodable link frame leaves the translated receivers' state as it was (and is reported) -/
+theorem C19_src_accept_frame_error (st : RxSt) (e : FErr) :
+    ∀ step ∈ [Src.canAccept, Src.usartAccept, Src.serialAccept], step st (.err e) = (st, some (.frameErr e)) := by
+  intro step hstep
+  simp only [List.mem_cons, List.not_mem_nil, or_false] at hstep
+  rcases hstep with rfl | rfl | rfl
+  · exact Ross.src_canAccept_eq st (.err e)
+  · exact Ross.src_usartAccept_eq st (.err e)
+  · exact Ross.src_serialAccept_eq st (.err e)
 
 end Ross.Props
